@@ -52,7 +52,10 @@ def rand_gate(rng, N, kinds=('gen', 'fmap', 'bmap', 'named', 'cnot')):
     if kind == 'gen':
         # generator with full support on its qubits (as clifford_rotation_gate produces after condensing)
         g = (tuple(rng.choice('XYZ') for _ in range(k)), rng.choice((0, 2)))
-        return dict(kind='gen', qubits=qubits, gen=g, order=order)
+        # how the generator gate is built: set_generator on a gate, or clifford_rotation_gate from a Pauli / a string / a monomial
+        # with coefficient 1 (all describe the same operator; the qubit list is ascending for the constructor route)
+        via = rng.choice(['set', 'set', 'rot-pauli', 'rot-mono', 'rot-str']) if order == qubits else 'set'
+        return dict(kind='gen', qubits=qubits, gen=g, order=order, via=via)
     F, Fi = rand_map_pair(rng, k)
     return dict(kind=kind, qubits=qubits, F=F, Fi=Fi, order=order)
 
@@ -61,12 +64,37 @@ def rand_program(rng, N, length, kinds=('gen', 'fmap', 'bmap', 'named', 'cnot'))
     return [rand_gate(rng, N, kinds) for _ in range(length)]
 
 
+def shift_gate(d, off):
+    """the same gate `off` qubits further up the register"""
+    e = dict(d)
+    e['qubits'] = [q + off for q in d['qubits']]
+    if 'order' in d:
+        e['order'] = [q + off for q in d['order']]
+    if d['kind'] == 'cnot':
+        e['c'], e['t'] = d['c'] + off, d['t'] + off
+    return e
+
+
+def wide_program(rng, N, length, kinds=('gen', 'fmap', 'bmap', 'named', 'cnot'), window=6):
+    """a program on the top `window` qubits of a wide register (qubit indices beyond 63 included)"""
+    return [shift_gate(d, N - window) for d in rand_program(rng, window, length, kinds)]
+
+
 def impl_gate(impl, d):
     CI = impl.CI
     if d['kind'] == 'named':
         return getattr(CI, d['name'])(*d['qubits'])
     if d['kind'] == 'cnot':
         return CI.CNOT(d['c'], d['t'])
+    if d['kind'] == 'gen' and d.get('via', 'set') != 'set':
+        gen = d['gen']
+        if d['via'] == 'rot-pauli':
+            go = impl.pauli(gen)
+        elif d['via'] == 'rot-mono':
+            go = impl.pc.PauliMonomial(impl.garr(gen[0]), gen[1]).set_c(1.0)
+        else:
+            go = ('-' if gen[1] == 2 else '') + ''.join(gen[0])
+        return CI.clifford_rotation_gate(go, np.array(d['qubits']))
     g = CI.CliffordGate(*d.get('order', d['qubits']))
     if d['kind'] == 'gen':
         g.set_generator(impl.pauli(d['gen']))
